@@ -150,7 +150,7 @@ def inverse_statement(hdr, x, y):
             k = int(np.argmax(err))
             return "distort=False: pixel (%r, %r) comes back %.3g pixel off" % (float(x[k]), float(y[k]), float(err[k]))
         if distorted:
-            inside = (x >= 1) & (x <= hdr["naxis1"]) & (y >= 1) & (y <= hdr["naxis2"])
+            inside = (x >= 1) & (x <= hdr.get("znaxis1", hdr["naxis1"])) & (y >= 1) & (y <= hdr.get("znaxis2", hdr["naxis2"]))
             xb, yb = w.sky2image(lon.copy(), lat.copy(), find=False)
             err = np.hypot(xb - x, yb - y)[inside]
             # the accuracy of the fitted inverse polynomial is what the fit itself reports (rms over its own grid, in pixels)
@@ -286,13 +286,20 @@ def _headers(tier, seed):
                             if i + j >= 2:
                                 h["%s_%d_%d" % (p, i, j)] = rng.uniform(-1, 1) * 0.01 * rpix ** (1 - i - j)
             out.append(h)
+            if kind != "TAN" and len(out) % 3 == 0:
+                # the same header as an fpack image HDU carries it: the image size moves to ZNAXISn
+                z = dict(h)
+                z["znaxis1"], z["znaxis2"] = h["naxis1"], h["naxis2"]
+                z["naxis1"], z["naxis2"] = 8, h["naxis2"]
+                out.append(z)
     return out
 
 
 def _pixels(rng, h, n):
     import numpy as np
-    xs = [1.0, float(h["naxis1"]), h["crpix1"], 1.0, float(h["naxis1"])] + [rng.uniform(1, h["naxis1"]) for _ in range(n)]
-    ys = [1.0, float(h["naxis2"]), h["crpix2"], float(h["naxis2"]), 1.0] + [rng.uniform(1, h["naxis2"]) for _ in range(n)]
+    nx, ny = h.get("znaxis1", h["naxis1"]), h.get("znaxis2", h["naxis2"])
+    xs = [1.0, float(nx), h["crpix1"], 1.0, float(nx)] + [rng.uniform(1, nx) for _ in range(n)]
+    ys = [1.0, float(ny), h["crpix2"], float(ny), 1.0] + [rng.uniform(1, ny) for _ in range(n)]
     # and a few positions next to the reference pixel, where the native latitude is close to 90 degrees
     for d in (0.5, -3.0, 40.0):
         xs.append(h["crpix1"] + d)
@@ -329,8 +336,8 @@ def _pixels(rng, h, n):
 
 
 def _desc(h):
-    return "%s crval=(%.6g, %.6g) crpix=(%.6g, %.6g) cd=(%.3g %.3g %.3g %.3g)" % (
-        h["ctype1"][4:], h["crval1"], h["crval2"], h["crpix1"], h["crpix2"], h["cd1_1"], h["cd1_2"], h["cd2_1"], h["cd2_2"])
+    return "%s%s crval=(%.6g, %.6g) crpix=(%.6g, %.6g) cd=(%.3g %.3g %.3g %.3g)" % (
+        h["ctype1"][4:], " (ZNAXIS)" if "znaxis1" in h else "", h["crval1"], h["crval2"], h["crpix1"], h["crpix2"], h["cd1_1"], h["cd1_2"], h["cd2_1"], h["cd2_2"])
 
 
 @domain("esutil.wcsutil#forward")
